@@ -28,6 +28,7 @@ func init() {
 	vProps["C07"] = mk("C07")
 	vProps["C09"] = mk("C09")
 	vProps["C10"] = mk("C10")
+	vProps["C15"] = mk("C15")
 }
 
 type c07Stream struct {
@@ -71,6 +72,9 @@ func (l *c07ListenCB) OnShutdown(reason string) {}
 type c07Msg struct{ id, size int }
 
 type c07Run struct {
+	pool   *streamPool
+	pooled []int // ids in the pool, oldest first (harness view)
+	heldP  map[int]bool // ids handed out by the pool and not yet put back
 	inflQ  map[string][]c07Msg // per sending end: messages in its send queue, not yet drained by the peer
 	inflK  map[string][]c07Msg // per sending end: fallback messages written to the connection, not yet delivered
 	ends   map[string]*c07End
@@ -308,6 +312,7 @@ func c07Exec(ops []string, prop string) vResult {
 				}
 				wlen := s.st.sendBuf.Len()
 				fbBefore := e.s.stats.fallbackWriteCount
+				s.st.SetWriteDeadline(time.Now().Add(-time.Hour)) // Stream.reset (pool) clears it; a full queue must answer at once
 				err := s.st.Flush(false)
 				r := "shm"
 				switch {
@@ -444,6 +449,124 @@ func c07Exec(ops []string, prop string) vResult {
 				}
 				s.st.BufferReader().ReleasePreviousRead()
 				return "ok" + c.suffix(x, id)
+			case f[0] == "pool" && len(f) == 2 && c.pool == nil:
+				c.pool = newStreamPool(uint32(vAtoi(f[1])))
+				c.pool.session.Store(c.ends["a"].s)
+				c.heldP = map[int]bool{}
+				return "ok"
+			case f[0] == "pget" && len(f) == 1 && c.pool != nil:
+				a := c.ends["a"]
+				st, err := c.pool.getOrOpenStream()
+				if err != nil {
+					c.setFail("pool-get-error", "GetStream returned "+err.Error())
+					return "err"
+				}
+				id := int(st.id)
+				// which pooled streams were skipped: everything ahead of the returned one (or all, if a new stream was opened)
+				skipped := c.pooled
+				fresh := true
+				for k, pid := range c.pooled {
+					if pid == id {
+						skipped = c.pooled[:k]
+						c.pooled = c.pooled[k+1:]
+						fresh = false
+						break
+					}
+				}
+				if fresh {
+					c.pooled = nil
+					a.streams[id] = &c07Stream{st: st}
+					a.all = append(a.all, st)
+				}
+				for _, pid := range skipped {
+					if ps := a.streams[pid]; ps != nil {
+						ps.closedLocal = true // the pool discards them: they must have been closed (C15)
+						ps.pipeIn = nil
+						if q := c.peerStream("a", pid); q != nil {
+							q.peerClosed = true
+						}
+						c.tags["pool-discarded"] = true
+					}
+				}
+				// S (C15): open, on a live session, clean, and not handed to two callers
+				if !st.IsOpen() || st.Session().IsClosed() {
+					c.setFail("pool-handout-dead", fmt.Sprintf("GetStream returned stream %d which is not open / whose session is closed", id))
+				}
+				if st.recvBuf.Len() != 0 {
+					c.setFail("pool-handout-dirty", fmt.Sprintf("GetStream returned stream %d with %d unread bytes of an earlier use", id, st.recvBuf.Len()))
+				}
+				if c.heldP[id] {
+					c.setFail("pool-double-handout", fmt.Sprintf("stream %d handed to two callers", id))
+				}
+				c.heldP[id] = true
+				if !fresh {
+					c.tags["pool-reuse"] = true
+				}
+				st.SetReadDeadline(time.Now().Add(-time.Hour))
+				st.SetWriteDeadline(time.Now().Add(-time.Hour))
+				c.checkActive("after GetStream")
+				return fmt.Sprintf("ok %d pooled=%d", id, len(c.pooled)) + c.gsuffix()
+			case f[0] == "pput" && len(f) == 2 && c.pool != nil:
+				id := vAtoi(f[1])
+				a := c.ends["a"]
+				ps := a.streams[id]
+				if ps == nil || ps.st == nil {
+					return "missing"
+				}
+				if !c.heldP[id] {
+					return "notheld"
+				}
+				before := c.pool.tail - c.pool.head
+				wasOpen, wasFb := ps.st.IsOpen(), ps.st.inFallbackState
+				unread := ps.st.recvBuf.Len()
+				ps.st.pendingData.Lock()
+				npend := len(ps.st.pendingData.unread)
+				ps.st.pendingData.Unlock()
+				c.pool.putOrCloseStream(ps.st)
+				delete(c.heldP, id)
+				r := "pooled"
+				if c.pool.tail-c.pool.head > before {
+					c.pooled = append(c.pooled, id)
+				} else {
+					switch {
+					case wasFb:
+						r = "closed-fallback"
+					case !wasOpen:
+						r = "closed-notopen"
+					case unread > 0:
+						r = "closed-unread"
+					case npend > 0:
+						r = "closed-pending"
+					default:
+						r = "closed-full"
+					}
+					c.tags["pool-"+r] = true
+					ps.closedLocal = true
+					ps.wbuf = nil
+					owed := 0
+					for _, m := range c.inflQ["b"] {
+						if m.id == id {
+							owed += m.size
+						}
+					}
+					for _, m := range c.inflK["b"] {
+						if m.id == id {
+							owed += m.size
+						}
+					}
+					if owed <= len(ps.pipeIn) {
+						ps.pipeIn = ps.pipeIn[len(ps.pipeIn)-owed:]
+					}
+					if q := c.peerStream("a", id); q != nil {
+						q.peerClosed = true
+					}
+					// S (C15): a stream given back is either kept or closed
+					if ps.st.getStreamState() != uint32(streamClosed) {
+						c.setFail("pool-neither-kept-nor-closed", fmt.Sprintf("PutBack neither pooled nor closed stream %d", id))
+					}
+				}
+				c.checkActive("after PutBack")
+				return fmt.Sprintf("%s pooled=%d", r, len(c.pooled)) + c.gsuffix()
 			case (f[0] == "take" || f[0] == "give") && len(f) == 3:
 				ci, k := vAtoi(f[1]), vAtoi(f[2])
 				if ci < 0 || ci >= len(c.caps) {
@@ -484,6 +607,20 @@ func c07Exec(ops []string, prop string) vResult {
 		tags = append(tags, "multi-stream")
 	}
 	return vResult{out: out, specFail: c.fail, key: c.key, tags: tags}
+}
+
+// S (C15): the client's active-stream count equals the streams that were not closed locally (held by callers + pooled)
+func (c *c07Run) checkActive(when string) {
+	a := c.ends["a"]
+	want := 0
+	for _, s := range a.streams {
+		if s.st != nil && !s.closedLocal {
+			want++
+		}
+	}
+	if got := a.s.GetActiveStreamCount(); got != want {
+		c.setFail("pool-leak", fmt.Sprintf("%s: the session counts %d active streams, callers hold + pool keeps %d", when, got, want))
+	}
 }
 
 // quiescence (C09): everything in flight is delivered, every stream that ever existed on either end is closed, the
@@ -592,7 +729,49 @@ func (c *c07Run) quiesce() {
 	}
 }
 
+func c15Gen(r *rand.Rand) []string {
+	cls := [][]string{{"16:8"}, {"8:6", "32:4"}}[r.Intn(2)]
+	caps, _ := c06Classes(cls)
+	ops := []string{fmt.Sprintf("init %d %s", []int{2, 4, 8}[r.Intn(3)], strings.Join(cls, " ")), fmt.Sprintf("pool %d", r.Intn(4))}
+	var seq byte
+	n := 8 + r.Intn(40)
+	id := func() int { return 2 + r.Intn(4) }
+	for i := 0; i < n; i++ {
+		switch k := r.Intn(20); {
+		case k < 5:
+			ops = append(ops, "pget")
+		case k < 9:
+			ops = append(ops, fmt.Sprintf("pput %d", id()))
+		case k < 12:
+			j := id()
+			ops = append(ops, fmt.Sprintf("wb a %d %s", j, c06RandBytes(r, 1+r.Intn(caps[0]+3), &seq)), fmt.Sprintf("flush a %d", j))
+		case k < 15:
+			ops = append(ops, "deliver "+[]string{"a", "b"}[r.Intn(2)])
+		case k < 16:
+			j := id()
+			ops = append(ops, fmt.Sprintf("wb b %d %s", j, c06RandBytes(r, 1+r.Intn(caps[0]+3), &seq)), fmt.Sprintf("flush b %d", j))
+		case k < 17:
+			ops = append(ops, fmt.Sprintf("%s a %d %d", []string{"rb", "dc"}[r.Intn(2)], id(), 1+r.Intn(caps[0])))
+		case k < 18:
+			j := id()
+			ops = append(ops, fmt.Sprintf("close b %d", j))
+			if r.Intn(2) == 0 {
+				// the peer closes a stream that is (about to be) pooled: GetStream must discard AND close it
+				ops = append(ops, fmt.Sprintf("pput %d", j), "deliver a", "deliver a", "pget")
+			}
+		case k < 19:
+			ops = append(ops, fmt.Sprintf("rb b %d %d", id(), 1+r.Intn(caps[0])))
+		default:
+			ops = append(ops, fmt.Sprintf("take %d %d", r.Intn(len(caps)), 1+r.Intn(4)))
+		}
+	}
+	return ops
+}
+
 func c07Gen(r *rand.Rand, tier string, idx int, flavour string) []string {
+	if flavour == "C15" {
+		return c15Gen(r)
+	}
 	cfgs := [][]string{{"16:6"}, {"8:6", "32:4"}, {"16:4", "64:4"}, {"4:10"}}
 	cls := cfgs[r.Intn(len(cfgs))]
 	caps, _ := c06Classes(cls)
